@@ -519,6 +519,10 @@ class IMAPClientCommand:
             # Search keys (NOT, OR and parenthesized lists) nest.
             #
             raise BadSyntax(value="command is nested too deeply") from err
+        except ValueError as err:
+            # int() refuses to convert absurdly long strings of digits.
+            #
+            raise BadSyntax(value="number is too large") from err
         return self
 
     ####################################################################
